@@ -1,7 +1,7 @@
 (* C09  Expression types follow the language's conversion rules.
    Statements only; every proof is `exact <lemma>`. *)
 From CV Require Import Base.Bytes Lit.Platform Lit.Gen_Platforms TypeConv.Gen_TypeRank TypeConv.Defs TypeConv.Spec
-  TypeConv.Proofs TypeConv.LitProofs TypeConv.Explain TypeConv.Parametric TypeConv.Refuted.
+  TypeConv.Proofs TypeConv.LitProofs TypeConv.Explain TypeConv.Parametric TypeConv.Unary TypeConv.Refuted.
 Local Open Scope N_scope.
 
 (* on every assignment of widths with 1 < char < short < int < long < long long (strictly), for all
@@ -107,6 +107,27 @@ Theorem C09_explain_class_sound cpp w op a b :
   (k <> 0 -> agrees cpp w op a b = false).
 Proof. exact (explain_class_sound cpp w op a b). Qed.
 Print Assumptions C09_explain_class_sound.
+
+(* unary + - ~ : the promoted type for every ordered assignment of widths, unless the operand is an
+   unsigned type below int that int cannot represent (class 2, same defect as for binary operators) *)
+Theorem C09_unary_arith_spec w a : ordered w ->
+  ctype_of (result_type1 (vt_of a)) = Some (promote w a) \/ cause_promotion w a = true.
+Proof. exact (unary_arith_spec w a). Qed.
+Print Assumptions C09_unary_arith_spec.
+
+(* ++ -- : the operand's type from int upwards; refuted below int (`us++` is typed signed int) *)
+Theorem C09_incdec_spec a : 3 <= crank a -> ctype_of (result_type1 (vt_of a)) = Some a.
+Proof. exact (incdec_spec a). Qed.
+Print Assumptions C09_incdec_spec.
+
+Theorem C09_incdec_small_refuted : forall w,
+  ctype_of (result_type1 (vt_of CUShort)) = Some CInt /\ c_result1 w UIncDec CUShort = CUShort.
+Proof. exact incdec_small_refuted. Qed.
+Print Assumptions C09_incdec_small_refuted.
+
+Theorem C09_unary_deviations_explained w op a : ordered w -> explain1 w op a <> 9.
+Proof. exact (unary_deviations_explained w op a). Qed.
+Print Assumptions C09_unary_deviations_explained.
 
 Example C09_ex_ordered_ilp32 : ordered (widths_of plat_unix32).
 Proof. unfold ordered; vm_compute; repeat split; try discriminate; reflexivity. Qed.
